@@ -13,7 +13,7 @@ import vlib
 PID = "C11"
 DEFS = ("mpt_loop=drv_mpt_loop", "mpt_notify_wait=hk_notify_wait", "mpt_notify_next=hk_notify_next")
 CFG = {
-    "quick":    dict(mcs=["MC_Notify.cfg"], gens=["Gen_Notify.cfg"], dump=False, nhist=30, steps=60),
+    "quick":    dict(mcs=["MC_Notify.cfg"], gens=["Gen_Notify.cfg"], dump=False, nhist=24, steps=50),
     "thorough": dict(mcs=["MC_Notify_t.cfg", "MC_Notify_t3.cfg"], gens=["Gen_Notify_t.cfg"], dump=True, nhist=300, steps=120),
 }
 ENV = {"ASAN_OPTIONS": vlib.ASAN_ENV + ":symbolize=0"}
